@@ -179,6 +179,24 @@ def run(ctx):
                       res, sigs, ignore_disqualification=True)
     except Exception as e:  # noqa
         res["oracle_failures"].append(dict(clause="hourly_family_unavailable", error=f"{type(e).__name__}: {str(e)[:120]}"))
+    # other settings profiles the hourly constructor accepts: every one that can be fitted must survive storage
+    hourly_profiles = [("no_edge_bins", {"temperature_bin": {"include_edge_bins": False, "edge_bin_rate": None, "edge_bin_percent": None}}),
+                       ("seed_7_robust_scaler", {"seed": 7, "scaling_method": "robustscaler"})]
+    if thorough:
+        hourly_profiles += [("adaptive_weights", {"elasticnet": {"adaptive_weights": True, "adaptive_weight_max_iter": 3, "adaptive_weight_tol": 1e-3}}),
+                            ("min_daily_training_hours_0", {"min_daily_training_hours": 0})]
+    for pname, st in hourly_profiles:
+        try:
+            hmp = HourlyModel(settings=st)
+        except Exception as e:  # noqa
+            res["hist"][f"hourly_profile_rejected:{pname}:{type(e).__name__}"] = 1      # not a profile the constructor accepts
+            continue
+        try:
+            hmp = hmp.fit(hb, ignore_disqualification=True)
+        except Exception as e:  # noqa
+            res["hist"][f"hourly_profile_fit_failed:{pname}:{type(e).__name__}"] = 1
+            continue
+        roundtrip("hourly_profile_" + pname, hmp, HourlyModel, {"inside": hrd["inside"]}, res, sigs, ignore_disqualification=True)
     try:
         from opendsm.eemeter.models.hourly_caltrack.wrapper import HourlyModel as CT
         from opendsm.eemeter.models.hourly_caltrack.data import HourlyBaselineData as CTB, HourlyReportingData as CTR
